@@ -302,6 +302,7 @@ package state
 //@   requires ctx != nil
 //@   requires fee == nil || quantity.Val(&fee.Amount) >= 0
 //@   assumes GNonce[staking.AddrOf(signer)] < 18446744073709551615
+//@   precall quantity\.Move$ :: Deliver(ctx) && account.General.Nonce == nonce && argIs(1, &account.General.Balance) && argIs(2, &fee.Amount) && QV(&account.General.Balance) >= QV(&fee.Amount) + QV(&params.MinTransactBalance)
 //@   ensures err != nil && !unavail(err) ==> GWrites == old(GWrites)
 //@   ensures err == nil && !old(Deliver(ctx)) ==> GWrites == old(GWrites)
 //@   ensures err == nil && !old(abciAPI.IsSim(ctx)) ==> old(GNonce[staking.AddrOf(signer)]) == nonce
@@ -360,8 +361,14 @@ package state
 // ---- epoch transition helpers (C05) ----
 
 //@ func ImmutableState.ExpiredDebondingQueue
-//@   trusted
+//@   props C15 C05
+//@   requires s != nil
 //@   modifies nothing
+//@   trustframe
+//@   loop 1 invariant len(entries) == GDecTrue - old(GDecTrue)
+//@   loop 1 invariant forall i int :: 0 <= i && i < len(entries) ==> entries[i] != nil && entries[i].Delegation != nil && QV(&entries[i].Delegation.Shares) >= 0
+//@   precall mkvs\.Iterator\)\.Err$ :: defined(decEpoch) && len(entries) + 1 == GDecTrue - old(GDecTrue) ==> decEpoch > uint64(epoch)
+//@   precall state\.ImmutableState\)\.DebondingDelegation$ :: decEpoch <= uint64(epoch) && argAs[beacon.EpochTime](3) == beacon.EpochTime(decEpoch)
 //@   ensures err != nil ==> len(result0) == 0
 //@   ensures err == nil ==> forall i int :: 0 <= i && i < len(result0) ==> result0[i] != nil && result0[i].Delegation != nil && QV(&result0[i].Delegation.Shares) >= 0
 //@   note iterates the debonding queue keys up to the epoch and loads each debonding delegation (stored shares are valid quantities)
@@ -385,3 +392,10 @@ package state
 //@   loop 1 invariant arrOf(eligibleEntities) == nil || fresh(arrOf(eligibleEntities))
 //@   ensures err == nil ==> ordDet(result0)
 //@   note entities eligible for the epoch-signing reward are collected from a Go map and returned sorted: rewards are paid in an order that is a function of state
+
+// ---- debonding queue (C15, timing): every entry that ends at or before the epoch is returned ----
+
+//@ ghost var GDecTrue int
+
+// (contract of ExpiredDebondingQueue: see the epoch transition helpers above)
+// note: GDecTrue counts the queue keys that decoded. The scan appends one entry per decoded key and stops early only at a key that does not decode or whose end epoch is AFTER the given epoch: a delegation whose debonding ends exactly at the epoch is returned (and paid out) at that epoch's transition, not one transition later
